@@ -1,6 +1,6 @@
 """C10 - bulk memory operations never straddle or leave the sandbox."""
 from .. import facts, q
-from ..engine import Inconclusive, lin, mul, C, is_const, fmt, cmp_, subterms
+from ..engine import root_param_names, Inconclusive, lin, mul, C, is_const, fmt, cmp_, subterms
 from ..common import site
 
 ENTRIES = [
@@ -197,7 +197,8 @@ def analyse_path(rep, f, p, inst, seen):
                 demand(i, r, mul(C(psz), cnt), "raw pointer handed back with %s elements of %d bytes (%s)" % (fmt(cnt), psz, T.get("pte")), f["loc"])
     if f["sn"] == "copy_and_verify_buffer_address":
         for i, e in enumerate(evs):
-            if e.kind == "CALL" and e.c == ("pobj", "verifier") or (e.kind == "CALL" and e.c is not None and e.c == ("addr", ("pobj", "verifier"))):
+            vn = ("pobj", root_param_names(f)[0])  # the verifier is the first parameter, whatever it is called
+            if e.kind == "CALL" and e.c is not None and (e.c == vn or e.c == ("addr", vn)):
                 r = e.b[0] if e.b else None
                 if r is None:
                     continue
